@@ -19,16 +19,19 @@ THEOREMS = [
     ("EG.props.C17", "C17_refuted_q_mqtt_connack_fail_leaks"),
 ]
 _HOOK = {"pkg/util/sem/zz_verif_c17_hook.go": "harness/sem/zz_verif_c17_hook.go"}
+_HOOK2 = dict(_HOOK, **{"pkg/util/limitlistener/zz_verif_c17_hook.go": "harness/limitlistener/zz_verif_c17_hook.go"})
 HARNESSES = [
     dict(name="sem", pkg="pkg/util/sem", files=["harness/sem/zz_verif_c17_test.go"],
          run="TestVerifC17Sem", groups=["sem"], timeout=900, share=0.4, race=True, extra_overlay=_HOOK),
     dict(name="ll", pkg="pkg/util/limitlistener", files=["harness/limitlistener/zz_verif_c17_test.go"],
          run="TestVerifC17LL", groups=["ll", "storm"], timeout=900, share=0.4, race=True, extra_overlay=_HOOK),
+    dict(name="hs", pkg="pkg/object/httpserver", files=["harness/httpserver/zz_verif_c17_test.go"],
+         run="TestVerifC17Hs", groups=["hs"], timeout=900, share=0.05, race=True, extra_overlay=_HOOK2),
     dict(name="mq", pkg="pkg/object/mqttproxy", files=["harness/mqttproxy/zz_verif_c17_test.go"],
          run="TestVerifC17Mqtt", groups=["mq", "mqstorm"], timeout=900, share=0.2, race=True),
 ]
-GROUPS = {"sem": "check_sem", "ll": "check_ll", "mq": "check_mq", "storm": "check_storm", "mqstorm": "check_mqstorm"}
-EXPLAIN = {"sem": "explain_sem", "ll": "explain_ll", "mq": "explain_mq"}
+GROUPS = {"hs": "check_hs", "sem": "check_sem", "ll": "check_ll", "mq": "check_mq", "storm": "check_storm", "mqstorm": "check_mqstorm"}
+EXPLAIN = {"hs": "explain_hs", "sem": "explain_sem", "ll": "explain_ll", "mq": "explain_mq"}
 CASES = {"quick": 1500, "thorough": 8000}
 RULE = ("cases: operation sequences on the real Semaphore / LimitListener (fake inner listener) / Broker (raw TCP clients, "
         "connections parked between the two cap checks); observables compared with the model after EVERY operation; "
@@ -71,7 +74,8 @@ def coq_header(kf_open):
     return ("From EG.lib Require Import Base.\nFrom EG.model Require Import Sem SemCheck.\nOpen Scope Z_scope.\n"
             "Definition pinned : quirks := {| %s |}.\n"
             "Definition check_sem := check_sem_with pinned.\nDefinition check_ll := check_ll_with pinned.\n"
-            "Definition check_mq := check_mq_with pinned.\n"
+            "Definition check_mq := check_mq_with pinned.\nDefinition check_hs := check_hs_with pinned.\n"
+            "Definition explain_hs := explain_hs_with pinned.\n"
             "Definition explain_sem := explain_sem_with pinned.\nDefinition explain_ll := explain_ll_with pinned.\n"
             "Definition explain_mq := explain_mq_with pinned.\n" % pinned)
 
@@ -100,7 +104,7 @@ def encode(c):
                 continue
             k = op[0]
             ops.append("OAccept" if k == 0 else "OOffer" if k == 1 else "OOfferErr" if k == 2 else "OOfferTmp" if k == 5
-                       else C("OClose", N(op[1])) if k == 3 else C("OSetMax", Z(op[1])))
+                       else C("OClose", N(op[1])) if k == 3 else C("ORead", N(op[1])) if k == 6 else C("OSetMax", Z(op[1])))
         steps = [Rec(l_cur=Z(s["cur"]), l_real=Z(s["real"]), l_wq=_zl(s.get("wq")), l_held=Z(s["held"]),
                      l_open=L([N(x) for x in s.get("open") or []]), l_blocked=Z(s["blocked"]), l_shr=Z(s["shr"]),
                      l_panics=Z(s["panics"]), l_dropped=Z(s["dropped"])) for s in o.get("steps") or []]
@@ -123,6 +127,17 @@ def encode(c):
                  for s in steps_raw]
         return Rec(qc_cap=Z(i["cap"]), qc_ops=L(ops), qc_obs=L(steps), qc_desync=B(o.get("desync")),
                    qc_alive=Z(o.get("alive", -1)))
+    if g == "hs":
+        ops = []
+        for op in i.get("ops") or []:
+            if not op:
+                continue
+            ops.append("HDial" if op[0] == 0 else C("HClose", N(op[1])) if op[0] == 1 else C("HReload", Z(op[1])))
+        steps = [Rec(h_decoded=Z(s["decoded"]), h_served=L([N(x) for x in s.get("served") or []]), h_waiting=Z(s["waiting"]),
+                     h_cur=Z(s["cur"]), h_real=Z(s["real"]), h_wq=_zl(s.get("wq")), h_shr=Z(s["shr"]), h_skip=B(s.get("skip")))
+                 for s in o.get("steps") or []]
+        return Rec(hc_init=Z(i["init"]), hc_M=Z(i["M"]), hc_ops=L(ops), hc_obs=L(steps), hc_desync=B(o.get("desync")),
+                   hc_bad=B(bool(o.get("bad"))))
     if g == "storm":
         return Rec(st_caps=_zl(i["caps"]), st_max=_zl(o.get("max")), st_accepted=Z(o["accepted"]), st_closed=Z(o["closed"]),
                    st_panics=Z(o["panics"]), st_dropped=Z(o["dropped"]), st_desync=B(o.get("desync")),
@@ -161,7 +176,7 @@ def signature(case, result):
 
 
 def shrink_candidates(inp, grp):
-    if grp not in ("sem", "ll", "mq"):
+    if grp not in ("sem", "ll", "mq", "hs"):
         return
     ops = inp.get("ops") or []
     n = len(ops)
